@@ -225,6 +225,11 @@ def random_region(rnd):
     if rnd.random() < 0.3:
         visual['linewidth'] = rnd.randint(1, 4)
     kind = rnd.choice(['Circle', 'Ellipse', 'Rectangle', 'CircleAnnulus', 'EllipseAnnulus', 'RectangleAnnulus', 'Polygon', 'Line', 'Point', 'Text'])
+    # visual attributes as a caller who uses matplotlib gives them: dash lengths and font sizes are floats there (8.0, 12.0 are whole numbers)
+    if kind not in ('Point', 'Text') and rnd.random() < 0.12:
+        visual['linestyle'] = rnd.choice([(0, (8.0, 3.0)), (0, (8, 3)), 'dashed'])
+    if kind == 'Text' and rnd.random() < 0.3:
+        visual.update({'fontname': 'times', 'fontsize': rnd.choice([12.0, 14, 10.0]), 'fontweight': 'bold', 'fontstyle': 'normal'})
     if kind not in ('Text',) and rnd.random() < 0.3:
         meta['text'] = rnd.choice(['a label', 'x;y', 'k=v # z', '123', 'semi; colon', '', "FOV 5'", '2" beam', '"quoted"', "'tis", ';lead', '; note', ';', 'end;', '#first', '=x', 'NGC 1234   (core)', 'two  blanks', ' lead blank'])
     K = getattr(R, kind + ('PixelRegion' if pix else 'SkyRegion'))
